@@ -4,6 +4,7 @@ A *case* = operator expression + call + operands.  For every case three values a
 real (cola in-process), code (Lean code model) and spec (Lean `den`-based specification)."""
 import collections
 import json
+import os
 import warnings
 
 import numpy as np
@@ -435,7 +436,18 @@ class Engine:
             forms.append([{"i": rng.choice([r, -r - 1])}])
             forms.append([rix(r), {"i": rng.choice([c, -c - 1])}])
         pick = rng.sample(forms, min(len(forms), 4))
-        return [{"call": "getitem", "op": s, "ids": f} for f in pick]
+        out = [{"call": "getitem", "op": s, "ids": f} for f in pick]
+        # products with the lazy slice ("complex operands multiplied into a slice"): A[ix0, ix1] @ X and X @ A[ix0, ix1]
+        if rng.random() < 0.5:
+            i0, i1 = rix(r), rix(c)
+            sl = ["slice", s, i0, i1]
+            nr = len(i0["a"]) if "a" in i0 else len(range(*slice(*i0["s"]).indices(r)))
+            nc = len(i1["a"]) if "a" in i1 else len(range(*slice(*i1["s"]).indices(c)))
+            dt, X = G.operand(nc, dt=rng.choice(["c64", "c128", "f64"]))
+            out.append({"call": "matmat", "op": sl, "x": X, "xdt": dt})
+            dt, X = G.operand(nr, dt=rng.choice(["c64", "c128", "f32"]))
+            out.append({"call": "rmatmat", "op": sl, "x": [list(q) for q in zip(*X)], "xdt": dt})
+        return out
 
     def info_pass(self, trees):
         cases, keys = [], {}
@@ -450,6 +462,10 @@ class Engine:
 
     def evaluate(self, cases):
         """-> list of (case, ans, real, status, detail)"""
+        # the case stream is written to disk before it is run, so any disagreement replays exactly
+        with open(os.path.join(common.WORK, f"{self.ctx.prop}_cases.jsonl"), "a") as f:
+            for c in cases:
+                f.write(json.dumps(c) + "\n")
         ans = oracle.run_driver(cases)
         out = []
         for c in cases:
